@@ -28,7 +28,7 @@ MCNext ==
           \/ \E i \in 0..(Lz.N - 1) : LatAt(i)
           \/ \E nm \in PredNames : Pred(nm)
           \/ \E x \in Members : Upset(x) \/ Downset(x) \/ Attributes(x) \/ Minimal(x)
-          \/ \E E \in Small(Members) : Join(E) \/ Meet(E) \/ UpsetUnion(E) \/ DownsetUnion(E)
+          \/ \E E \in Small(Members) : Join(E) \/ Meet(E) \/ UpsetUnion(E) \/ DownsetUnion(E) \/ UpsetGeneralization(E)
           \/ Forget
 MCSpec == MCInit /\ [][MCNext]_ctxvars
 MCView == <<K, lat>>
